@@ -214,6 +214,13 @@ impl Property for C15Prop {
     }
 }
 
+/// identifiers that look like words of the language: words with a syntactic role that are not
+/// reserved, type names, and identifiers that begin with a reserved word
+const FIELD_WORDS: [&str; 30] = [
+    "in", "if", "else", "match", "import", "int", "float", "string", "any", "it", "std", "len", "mutx", "returns", "looping", "structure",
+    "module", "breaks", "continued", "truth", "falsehood", "whiles", "fort", "x1", "_a", "a_b", "A", "camelCase", "init", "iff",
+];
+
 pub fn run(session: &Session) -> i32 {
     crate::engine::run_regressions(session, &C15);
     // unions nested under one another through every constructor, three and four levels deep, and
@@ -248,6 +255,16 @@ pub fn run(session: &Session) -> i32 {
             cases.push(json!({"ty": u, "rot": rot}));
             cases.push(json!({"ty": format!("[{u}]|mut ({u})"), "rot": rot}));
             cases.push(json!({"ty": format!("({u})->({u})"), "rot": rot}));
+        }
+    }
+    // struct types whose field names are spelled like words of the language that are not reserved
+    // (any identifier may name a field), alone and under every constructor
+    for name in FIELD_WORDS {
+        for w in 0..7 {
+            let st = format!("struct{{{name}: int, z: string|{name2}}}", name2 = "float");
+            let ty = if w == 6 { st.clone() } else { wrap(w, &format!("{st}|bool")) };
+            cases.push(json!({"ty": ty, "rot": w}));
+            cases.push(json!({"ty": format!("{ty}|struct{{z: int, {name}: [int]}}"), "rot": w + 1}));
         }
     }
     session.set_extra("enumerated_nesting_cases", json!(cases.len()));
